@@ -32,7 +32,7 @@ func init() {
 	families["suitefault"] = &family{gen: genSuiteFault, run: runSuite}
 }
 
-// the benchmark programs 1110 next-hops; it is a performance measurement, not a conformance test
+// the benchmark programs 1110 next-hops: slow under simulation, so it only takes part in one run out of eight
 const benchmarkTest = "Benchmark Get for next-hops"
 
 func suiteIndex() []int {
@@ -66,8 +66,18 @@ func genSuite(seed uint64, prop string) *Scenario {
 	if n > len(idx) {
 		n = len(idx)
 	}
+	pick := append([]int(nil), idx[:n]...)
+	if r.IntN(8) == 0 {
+		// the (slow) benchmark test takes part in the order as well, now and then
+		for i, t := range compliance.TestSuite {
+			if t.In.ShortName == benchmarkTest {
+				at := r.IntN(len(pick) + 1)
+				pick = append(pick[:at], append([]int{i}, pick[at:]...)...)
+			}
+		}
+	}
 	sc.Steps = append(sc.Steps, Step{T: "base", A: r.IntN(len(elecBases))})
-	for _, i := range idx[:n] {
+	for _, i := range pick {
 		sc.Steps = append(sc.Steps, Step{T: "test", A: i, Note: compliance.TestSuite[i].In.ShortName})
 	}
 	return sc
